@@ -190,6 +190,119 @@ it
                 ==> self.rowval@[s] == old(self).rowval@[s] && self.nzval@[s] == old(self).nzval@[s],
             forall|k: int| i_ctr <= k < old(diagtoKKT)@.len() ==> #[trigger] diagtoKKT@[k] == old(diagtoKKT)@[k],
 //@end
+
+//@fn file=src/algebra/csc/utils.rs in="impl<T> CscMatrix<T>" name=fill_colvec rules=R1,R3,zipidx:1
+//@contract
+    requires
+        old(self).arrays_ok(), initcol < old(self).colptr@.len(),
+        // cursor discipline: the column has room for the whole vector
+        old(self).colptr@[initcol as int] + old(vtoKKT)@.len() <= old(self).rowval@.len(),
+        initrow + old(vtoKKT)@.len() <= usize::MAX,
+    ensures
+        final(self).arrays_ok(), final(self).rowval@.len() == old(self).rowval@.len(), final(vtoKKT)@.len() == old(vtoKKT)@.len(),
+        // C11: the column vector occupies rows initrow.. of column initcol, as structural zeros, slots recorded in order
+        final(self).colptr@ == old(self).colptr@.update(initcol as int, (old(self).colptr@[initcol as int] + old(vtoKKT)@.len()) as usize),
+        forall|i: int| 0 <= i < old(vtoKKT)@.len() ==> {
+            let dest = old(self).colptr@[initcol as int] + i;
+            &&& #[trigger] final(vtoKKT)@[i] == dest
+            &&& final(self).rowval@[dest] == initrow + i
+            &&& final(self).nzval@[dest] == f_zero()
+        },
+        forall|s: int| 0 <= s < old(self).rowval@.len() && !(old(self).colptr@[initcol as int] <= s < old(self).colptr@[initcol as int] + old(vtoKKT)@.len())
+            ==> #[trigger] final(self).rowval@[s] == old(self).rowval@[s] && final(self).nzval@[s] == old(self).nzval@[s],
+//@pre
+        proof { assert(self.rowval@.len() == self.rowval.len()); }
+//@loop 1
+        invariant
+            i_ctr == r14_i1, r14_n1 == vtoKKT@.len(), vtoKKT@.len() == old(vtoKKT)@.len(),
+            self.arrays_ok(), self.rowval@.len() == old(self).rowval@.len(), self.rowval@.len() <= usize::MAX, initcol < self.colptr@.len(),
+            old(self).colptr@[initcol as int] + old(vtoKKT)@.len() <= old(self).rowval@.len(), initrow + old(vtoKKT)@.len() <= usize::MAX,
+            self.colptr@ == old(self).colptr@.update(initcol as int, (old(self).colptr@[initcol as int] + i_ctr) as usize),
+            forall|i: int| 0 <= i < i_ctr ==> {
+                let dest = old(self).colptr@[initcol as int] + i;
+                &&& #[trigger] vtoKKT@[i] == dest
+                &&& self.rowval@[dest] == initrow + i
+                &&& self.nzval@[dest] == f_zero()
+            },
+            forall|s: int| 0 <= s < old(self).rowval@.len() && !(old(self).colptr@[initcol as int] <= s < old(self).colptr@[initcol as int] + i_ctr)
+                ==> #[trigger] self.rowval@[s] == old(self).rowval@[s] && self.nzval@[s] == old(self).nzval@[s],
+//@end
+
+//@fn file=src/algebra/csc/utils.rs in="impl<T> CscMatrix<T>" name=fill_rowvec rules=R1,R3,zipidx:1
+//@contract
+    requires
+        old(self).arrays_ok(), initcol + old(vtoKKT)@.len() <= old(self).colptr@.len(),
+        forall|c: int| initcol <= c < initcol + old(vtoKKT)@.len() ==> #[trigger] old(self).colptr@[c] < old(self).rowval@.len(),
+        forall|c1: int, c2: int| initcol <= c1 < c2 < initcol + old(vtoKKT)@.len() ==> #[trigger] old(self).colptr@[c1] != #[trigger] old(self).colptr@[c2],
+    ensures
+        final(self).arrays_ok(), final(self).rowval@.len() == old(self).rowval@.len(), final(vtoKKT)@.len() == old(vtoKKT)@.len(),
+        final(self).colptr@.len() == old(self).colptr@.len(),
+        colptr_same_except(final(self).colptr@, old(self).colptr@, initcol as int, initcol + old(vtoKKT)@.len()),
+        // C11: the row vector occupies row initrow of columns initcol.., as structural zeros
+        forall|c: int| initcol <= c < initcol + old(vtoKKT)@.len() ==> {
+            let dest = #[trigger] old(self).colptr@[c] as int;
+            &&& final(vtoKKT)@[c - initcol] == dest
+            &&& final(self).colptr@[c] == dest + 1
+            &&& final(self).rowval@[dest] == initrow
+            &&& final(self).nzval@[dest] == f_zero()
+        },
+        forall|s: int| 0 <= s < old(self).rowval@.len() && #[trigger] untouched(old(self).colptr@, initcol as int, initcol + old(vtoKKT)@.len(), s)
+            ==> final(self).rowval@[s] == old(self).rowval@[s] && final(self).nzval@[s] == old(self).nzval@[s],
+//@pre
+        proof { assert(self.rowval@.len() == self.rowval.len()); assert(self.colptr@.len() == self.colptr.len()); }
+        let ghost nv = vtoKKT@.len() as int;
+//@loop 1
+        invariant
+            i_ctr == r14_i1, r14_n1 == vtoKKT@.len(), vtoKKT@.len() == nv, nv == old(vtoKKT)@.len(),
+            self.arrays_ok(), self.rowval@.len() == old(self).rowval@.len(), self.rowval@.len() <= usize::MAX,
+            self.colptr@.len() == old(self).colptr@.len(), initcol + nv <= self.colptr@.len(), self.colptr@.len() <= usize::MAX,
+            forall|c: int| initcol <= c < initcol + nv ==> #[trigger] old(self).colptr@[c] < old(self).rowval@.len(),
+            forall|c1: int, c2: int| initcol <= c1 < c2 < initcol + nv ==> #[trigger] old(self).colptr@[c1] != #[trigger] old(self).colptr@[c2],
+            colptr_same_except(self.colptr@, old(self).colptr@, initcol as int, initcol + nv),
+            forall|c: int| initcol + i_ctr <= c < initcol + nv ==> #[trigger] self.colptr@[c] == old(self).colptr@[c],
+            forall|c: int| initcol <= c < initcol + i_ctr ==> {
+                let dest = #[trigger] old(self).colptr@[c] as int;
+                &&& vtoKKT@[c - initcol] == dest
+                &&& self.colptr@[c] == dest + 1
+                &&& self.rowval@[dest] == initrow
+                &&& self.nzval@[dest] == f_zero()
+            },
+            forall|s: int| 0 <= s < old(self).rowval@.len() && #[trigger] untouched(old(self).colptr@, initcol as int, initcol + i_ctr, s)
+                ==> self.rowval@[s] == old(self).rowval@[s] && self.nzval@[s] == old(self).nzval@[s],
+//@body_start 1
+            let ghost rv0 = self.rowval@;
+            let ghost nz0 = self.nzval@;
+            let ghost ic0 = i_ctr as int;
+//@body_end 1
+            proof {
+                assert forall|s: int| 0 <= s < old(self).rowval@.len() && #[trigger] untouched(old(self).colptr@, initcol as int, initcol + ic0 + 1, s)
+                    implies self.rowval@[s] == old(self).rowval@[s] && self.nzval@[s] == old(self).nzval@[s] by {
+                    assert(old(self).colptr@[initcol + ic0] != s);
+                    assert(untouched(old(self).colptr@, initcol as int, initcol + ic0, s));
+                    assert(rv0[s] == old(self).rowval@[s] && nz0[s] == old(self).nzval@[s]);
+                }
+            }
+//@end
+
+//@fn file=src/algebra/csc/utils.rs in="impl<T> CscMatrix<T>" name=colcount_to_colptr rules=R1,zipidx:1=m
+//@contract
+    requires sum_upto(old(self).colptr@, old(self).colptr@.len() as int) <= usize::MAX,
+    ensures
+        // colptr[c] becomes the number of entries in the columns before c (exclusive prefix sum of the counts)
+        final(self).colptr@.len() == old(self).colptr@.len(),
+        forall|c: int| 0 <= c < old(self).colptr@.len() ==> #[trigger] final(self).colptr@[c] == sum_upto(old(self).colptr@, c),
+        final(self).rowval@ == old(self).rowval@, final(self).nzval@ == old(self).nzval@,
+//@loop 1
+        invariant
+            r14_n1 == self.colptr@.len(), self.colptr@.len() == old(self).colptr@.len(),
+            self.rowval@ == old(self).rowval@, self.nzval@ == old(self).nzval@,
+            sum_upto(old(self).colptr@, old(self).colptr@.len() as int) <= usize::MAX,
+            currentptr == sum_upto(old(self).colptr@, r14_i1 as int),
+            forall|c: int| 0 <= c < r14_i1 ==> #[trigger] self.colptr@[c] == sum_upto(old(self).colptr@, c),
+            forall|c: int| r14_i1 <= c < self.colptr@.len() ==> #[trigger] self.colptr@[c] == old(self).colptr@[c],
+//@body_start 1
+            proof { lemma_sum_mono(old(self).colptr@, r14_i1 as int + 1, old(self).colptr@.len() as int); }
+//@end
 }
 
 // the values produced by the range offset..offset+blockdim
@@ -217,6 +330,11 @@ pub proof fn lemma_count_row_le(rows: Seq<usize>, r: int, j: int)
     ensures 0 <= count_row(rows, r, j) <= j,
     decreases j,
 { if j > 0 { lemma_count_row_le(rows, r, j - 1); } }
+pub proof fn lemma_sum_mono(s: Seq<usize>, a: int, b: int)
+    requires 0 <= a <= b <= s.len(),
+    ensures sum_upto(s, a) <= sum_upto(s, b),
+    decreases b - a,
+{ if a < b { lemma_sum_mono(s, a, b - 1); } }
 pub proof fn lemma_mono_chain(s: Seq<usize>, a: int, b: int)
     requires 0 <= a <= b < s.len(), forall|k: int| 0 <= k < s.len() - 1 ==> s[k] <= #[trigger] s[k + 1],
     ensures s[a] <= s[b],
